@@ -39,6 +39,7 @@ func cmdRun(args []string) int {
 	maxPaths := fs.Int("maxpaths", 0, "path limit")
 	out := fs.String("out", "", "write JSON result")
 	paramS := fs.String("params", "", "k=v,k=v harness parameters")
+	sinkS := fs.String("sinks", "", "comma-separated target functions treated as sinks")
 	fs.Parse(args)
 	eng, err := LoadEngine(*repo, *overlay, []string{*pkg})
 	if err != nil {
@@ -46,6 +47,11 @@ func cmdRun(args []string) int {
 		return 2
 	}
 	fmt.Fprintf(os.Stderr, "loaded in %v\n", eng.loadTime)
+	for _, f := range strings.Split(*sinkS, ",") {
+		if f != "" {
+			eng.sinkFuncs[f] = true
+		}
+	}
 	params := map[string]int64{}
 	for _, kv := range strings.Split(*paramS, ",") {
 		if k, v, ok := strings.Cut(kv, "="); ok {
